@@ -33,6 +33,7 @@ COQ = os.path.join(VERIF, "coq")
 FORBIDDEN = re.compile(
     r"\b(Admitted|admit|Axiom|Axioms|Parameter|Parameters|Conjecture|Conjectures|Hypothesis|Hypotheses|Variable|Variables)\b"
     r"|Unset\s+Guard|bypass_check|type-in-type|impredicative-set|Admit\s+Obligations|Unset\s+Universe\s+Checking|Unset\s+Positivity"
+    r"|\bDeclare\s+(?:Instance|Module)\b|^\s*Load\s|\bPrimitive\b|\bRegister\b"
 )
 ALLOWED_AXIOMS = {
     "ClassicalDedekindReals.sig_forall_dec",
@@ -105,34 +106,92 @@ def trace_kernel(k):
         got = strip_exprs(structure)
         if got != k.expect_structure:
             raise symtrace.TraceError("structure of %s changed: %r (expected %r)" % (k.name, got, k.expect_structure))
-    # validate the object-dtype run against a float64 run on perturbed concrete inputs
-    validated = 0
+    # validate the object-dtype run against a float64 run on perturbed concrete inputs; when no perturbed input stays on
+    # the traced path (scenarios with exact zeros, unit normals ...) validate once at the scenario point itself
+    validated, skipped = 0, {"off_path": 0, "float_run_raised": 0}
     rng = random.Random(12345)
-    for _ in range(k.validate_n):
+    attempts = [k.perturb] * k.validate_n
+    for att, perturb in enumerate(attempts + [0.0]):
+        if att == len(attempts) and (validated > 0 or k.validate_n == 0):
+            break
         env, farrays = {}, {}
         for n, v in k.inputs.items():
             a = np.array(v, dtype=np.float64)
-            pert = a + np.array([rng.uniform(-1, 1) * k.perturb for _ in range(a.size)]).reshape(a.shape) * (1 + np.abs(a))
+            pert = a + np.array([rng.uniform(-1, 1) * perturb for _ in range(a.size)]).reshape(a.shape) * (1 + np.abs(a))
             farrays[n] = pert
             for j, x in enumerate(pert.reshape(-1)):
                 env["%s%d" % (n, j)] = float(x)
         if not symtrace.path_holds_float(t, env):
+            skipped["off_path"] += 1
             continue
         try:
             fres = k.call(**farrays)
         except Exception:
+            skipped["float_run_raised"] += 1
             continue
         fstruct, fvals = flatten_floats(fres)
-        if strip_exprs(structure) != fstruct:
-            continue
         mine = symtrace.eval_float(t, [e.i for e in exprs], env)
-        for a, b in zip(mine, fvals):
-            if not (abs(a - b) <= 1e-9 * (1 + abs(a) + abs(b))):
-                raise symtrace.TraceError("object-dtype trace of %s differs from float64 run: %r vs %r" % (k.name, a, b))
+        # compare the two results as trees of numbers: same nesting and shapes, every number equal up to rounding
+        # (the symbolic run may hold a concrete integer where the float64 run holds a float: np.sign, literal tables)
+        a_num, b_num = numeric_tree(structure, mine), numeric_tree(fstruct, fvals)
+        why = tree_mismatch(a_num, b_num)
+        if why:
+            raise symtrace.TraceError("trace of %s: float64 run on the traced path differs from the object-dtype run: %s"
+                                      % (k.name, why))
         validated += 1
     text = symtrace.emit_definition(t, k.tname, exprs)
     return text, {"vars": list(t.vars), "structure": structure, "validated": validated, "n_out": len(exprs),
-                  "n_preds": len(set(t.preds))}
+                  "n_preds": len(set(t.preds)), "skipped": skipped}
+
+
+def numeric_tree(struct, values):
+    """replace {"e": k} / "e" leaves by numbers (values consumed in order for "e"), drop dtype tags"""
+    it = iter(values)
+
+    def go(x):
+        if isinstance(x, dict):
+            if "e" in x:
+                return float(values[x["e"]])
+            if "nan" in x:
+                return "nan"
+            return {k: go(v) for k, v in x.items() if k != "dtype"}
+        if isinstance(x, list):
+            return [go(v) for v in x]
+        if x == "e":
+            return float(next(it))
+        if isinstance(x, bool):
+            return float(x)
+        if isinstance(x, (int, float)):
+            return float(x)
+        return x
+
+    return go(struct)
+
+
+def tree_mismatch(a, b, where="result"):
+    if isinstance(a, dict) and isinstance(b, dict):
+        if set(a) != set(b):
+            return "%s: keys %s vs %s" % (where, sorted(a), sorted(b))
+        for k in a:
+            w = tree_mismatch(a[k], b[k], where + "." + k)
+            if w:
+                return w
+        return None
+    if isinstance(a, list) and isinstance(b, list):
+        if len(a) != len(b):
+            return "%s: length %d vs %d" % (where, len(a), len(b))
+        for i, (x, y) in enumerate(zip(a, b)):
+            w = tree_mismatch(x, y, "%s[%d]" % (where, i))
+            if w:
+                return w
+        return None
+    if isinstance(a, float) and isinstance(b, float):
+        if abs(a - b) <= 1e-9 * (1 + abs(a) + abs(b)):
+            return None
+        return "%s: %r vs %r" % (where, a, b)
+    if a == b:
+        return None
+    return "%s: %r vs %r" % (where, a, b)
 
 
 def strip_exprs(s):
@@ -278,6 +337,10 @@ class Run:
         self.cov["traced_kernels"] = len(kernels)
         self.cov["traces_validated_against_impl"] = sum(i["validated"] for i in infos.values())
         self.cov["traced_outputs"] = sum(i["n_out"] for i in infos.values())
+        # honest accounting of the numeric re-validation: how many comparisons involved symbolic outputs, and which
+        # kernels could not be re-validated at all (their tie rests on the coqc-checked lemma and the correspondence)
+        self.cov["traces_validated_with_numeric_outputs"] = sum(i["validated"] for i in infos.values() if i["n_out"] > 0)
+        self.cov["kernels_never_validated"] = sorted(n for n, i in infos.items() if i["validated"] == 0)
         self.kernel_infos = infos
 
     def props(self):
@@ -293,18 +356,42 @@ class Run:
             self.broken.append(("props", "props/%s.v does not check:\n%s" % (self.pid, out[-3000:])))
         else:
             self.discharged += len(thms)
-            for m in re.finditer(r"^([A-Za-z_][\w.]*)\s*:", out, re.M):
-                name = m.group(1)
-                if "." in name:
-                    axioms.add(name)
+            # every entry of every `Print Assumptions` block counts, qualified or not: a name we do not know is an
+            # assumption declared somewhere in the development (Axiom, Parameter, Declare Instance, top-level Context ...)
+            blocks = 0
+            in_block = False
+            for ln in out.split("\n"):
+                if ln.startswith("Axioms:"):
+                    in_block, blocks = True, blocks + 1
+                    continue
+                if ln.startswith("Closed under the global context"):
+                    in_block, blocks = False, blocks + 1
+                    continue
+                if in_block:
+                    m = re.match(r"^([A-Za-z_][\w.']*)\s*(?::|$)", ln)
+                    if m:
+                        axioms.add(m.group(1))
+                    elif ln and not ln[0].isspace():
+                        in_block = False
             opt_in = set(getattr(self.mod, "EXTRA_AXIOMS", [])) & STDLIB_AXIOMS
             extra = axioms - ALLOWED_AXIOMS - opt_in
             self.obligations += 1
+            all_def = re.search(r"Definition\s+%s_all\s*:=\s*\((.*?)\)\s*\." % self.pid, text, re.S)
+            printed = re.search(r"Print\s+Assumptions\s+%s_all\s*\." % self.pid, text)
+            missing = []
+            if all_def:
+                listed = set(re.findall(r"[A-Za-z_][\w']*", all_def.group(1)))
+                missing = [t for t in thms if t not in listed]
             if extra:
                 self.broken.append(("axioms", "unexpected assumptions: %s" % sorted(extra)))
+            elif blocks == 0 or not printed or not all_def:
+                self.broken.append(("axioms", "props/%s.v must define %s_all := (all theorems) and `Print Assumptions %s_all.`" % (self.pid, self.pid, self.pid)))
+            elif missing:
+                self.broken.append(("axioms", "theorems not covered by Print Assumptions %s_all: %s" % (self.pid, missing)))
             else:
                 self.discharged += 1
         definitional = set(getattr(self.mod, "DEFINITIONAL", []))
+        self.cov["theorems_checked"] = (rc == 0)
         self.cov["theorems"] = {
             "proved": [t for t in thms if not t.endswith("_refuted") and not t.endswith("_partial") and t not in definitional],
             "definitional": [t for t in thms if t in definitional],
@@ -379,6 +466,8 @@ class Run:
             c, o = cases[i], observed[i]
             fail = oracle_fail.get(i)
             key = mod.classify(c, o, fail, i in disagreements) if hasattr(mod, "classify") else None
+            if i in disagreements or not fail or str(fail).startswith("oracle crashed"):
+                key = None  # only a property failure the model mirrors can be a listed finding
             if key and (self.pid, key) in known_findings():
                 self.known_hits.setdefault(key, (c, o, fail))
                 continue
@@ -473,6 +562,7 @@ class Run:
             for k, v in extra.items():
                 cov.setdefault(k, v)
         cov["broken"] = [b[0] for b in self.broken]
+        cov["repo"] = {"path": REPO, "head": head, "dirty_files": dirty}
         ev = {"property_id": self.pid, "tier": self.tier, "seed": self.seed, "level": "proof", "coverage": cov,
               "assumptions": getattr(self.mod, "ASSUMPTIONS", []), "wall_s": round(time.time() - self.t0, 2),
               "violations": len(self.violations) + (1 if (self.broken and not self.violations) else 0)}
@@ -555,9 +645,31 @@ def main_check(pid, tier):
     return run.finish()
 
 
+def crashed(pid, tier, exc):
+    """the check itself crashed (import error, generator crash ...): never exit without a VIOLATION line and evidence"""
+    rdir = os.path.join(VERIF, "evidence", "replays")
+    os.makedirs(rdir, exist_ok=True)
+    tb = traceback.format_exc()[-3000:]
+    rp = os.path.join(rdir, "%s-unproved-crash.json" % pid)
+    json.dump({"property": pid, "kind": "unproved", "broken": [{"what": "harness", "detail": "check crashed: %r\n%s" % (exc, tb)}]},
+              open(rp, "w"), indent=1)
+    ev = {"property_id": pid, "tier": tier if tier in ("quick", "thorough") else "quick", "seed": int(os.environ.get("VERIF_SEED", "0")),
+          "level": "proof", "coverage": {"obligations": 1, "discharged": 0, "checker_cmd": "coqc (check crashed before completion)",
+                                          "trusted_base": [], "broken": ["harness"], "explanation": "check crashed: %r" % (exc,)},
+          "wall_s": 0.0, "violations": 1}
+    json.dump(ev, open(os.path.join(VERIF, "evidence", pid + ".json"), "w"), indent=1)
+    print(tb)
+    print("VIOLATION property=%s replay=%s no-failing-input-found" % (pid, os.path.relpath(rp, VERIF)))
+    return 1
+
+
 if __name__ == "__main__":
     pid = sys.argv[1]
     if len(sys.argv) >= 4 and sys.argv[2] == "--replay":
         sys.exit(replay(pid, sys.argv[3]))
     tier = sys.argv[2] if len(sys.argv) > 2 else os.environ.get("VERIF_TIER", "quick")
-    sys.exit(main_check(pid, tier))
+    try:
+        code = main_check(pid, tier)
+    except Exception as e:  # noqa
+        code = crashed(pid, tier, e)
+    sys.exit(code)
